@@ -130,13 +130,28 @@ def run_nnvg(argv: typing.List[str], timeout: int = 120) -> typing.Tuple[str, st
     return 'err', p.stdout[-300:]
 
 
+EXT = '@ext'
+
+
 def snapshot(outdir: str) -> dict:
-    """rel path -> ['f', sha256 | raw text for volatile-capable files, mode] | ['d', mode]"""
+    """rel path -> ['f', sha256, mode, text|None] | ['d', None, mode, None] | ['l', destination, 0, None];
+    the sibling directory <outdir>/../ext (destinations of symbolic links, outside the output directory) appears under @ext/"""
     snap = {'.': ['d', None, stat.S_IMODE(os.lstat(outdir).st_mode), None]}
+    ext = os.path.join(os.path.dirname(outdir), 'ext')
+    if os.path.isdir(ext):
+        snap[EXT] = ['d', None, stat.S_IMODE(os.lstat(ext).st_mode), None]
+        for n in sorted(os.listdir(ext)):
+            full = os.path.join(ext, n)
+            with open(full, 'rb') as f:
+                data = f.read()
+            snap[EXT + '/' + n] = ['f', hashlib.sha256(data).hexdigest(), stat.S_IMODE(os.lstat(full).st_mode), None]
     for root, dirs, files in os.walk(outdir):
         for n in files:
             full = os.path.join(root, n)
             st = os.lstat(full)
+            if stat.S_ISLNK(st.st_mode):
+                snap[os.path.relpath(full, outdir)] = ['l', os.path.basename(os.readlink(full)), 0, None]
+                continue
             with open(full, 'rb') as f:
                 data = f.read()
             rel = os.path.relpath(full, outdir)
@@ -225,7 +240,8 @@ def active_targets(d: dict) -> typing.List[str]:
     return t
 
 
-def gen_history(rng, mode: str, pool: typing.List[dict], fresh: Fresh, max_len: int, dir_at_copy_ok: bool = False) -> dict:
+def gen_history(rng, mode: str, pool: typing.List[dict], fresh: Fresh, max_len: int, dir_at_copy_ok: bool = False,
+                links_ok: bool = False) -> dict:
     ok_pool = [c for c in pool if (mode != 'plain' or not c['extra'])]
     with_extra = [c for c in ok_pool if c['extra']]
     classes = [rng.choice(with_extra if (with_extra and rng.random() < 0.6) else ok_pool) for _ in range(rng.choice([1, 2, 2, 3]))]
@@ -247,6 +263,12 @@ def gen_history(rng, mode: str, pool: typing.List[dict], fresh: Fresh, max_len: 
         if t not in used and (dir_at_copy_ok or t not in copy_targets) and not any(u.startswith(t + '/') for u in used):
             pre.append({'path': t, 'kind': 'dir', 'mode': rng.choice([0o755, 0o555, 0o500]), 'owned': True})
             used.add(t)
+    if links_ok and mode != 'nonroot' and all_targets and rng.random() < 0.2:
+        for n, t in enumerate(rng.sample(all_targets, min(len(all_targets), rng.choice([1, 1, 2])))):
+            if t not in used and not any(u.startswith(t + '/') for u in used):
+                pre.append({'path': t, 'kind': 'link', 'dest': 'victim%d.h' % n, 'live': rng.random() < 0.5,
+                            'mode': rng.choice([0o444, 0o644, 0o400]), 'owned': True})
+                used.add(t)
     if rng.random() < 0.08:
         b = rng.choice(['ns/sub', 'nunavut', 'ns'])
         if b not in used and not any(u.startswith(b + '/') for u in used):
@@ -285,11 +307,21 @@ def populate(outdir: str, h: dict) -> None:
         os.makedirs(os.path.dirname(full), exist_ok=True)
         if e['kind'] == 'dir':
             os.makedirs(full, exist_ok=True)
+        elif e['kind'] == 'link':
+            ext = os.path.join(os.path.dirname(outdir), 'ext')
+            os.makedirs(ext, exist_ok=True)
+            dest = os.path.join(ext, e['dest'])
+            if e['live']:
+                with open(dest, 'w') as f:
+                    f.write('foreign outside the output directory\n')
+                os.chmod(dest, e['mode'])
+            os.symlink(os.path.relpath(dest, os.path.dirname(full)), full)
         else:
             with open(full, 'w') as f:
                 f.write(e['content'])
     for e in h['pre']:
-        os.chmod(os.path.join(outdir, e['path']), e['mode'])
+        if e['kind'] != 'link':
+            os.chmod(os.path.join(outdir, e['path']), e['mode'])
     for d in h.get('rodirs', []):
         full = os.path.join(outdir, d)
         if not os.path.lexists(full):
@@ -390,6 +422,11 @@ def model_line(h: dict, fresh: Fresh, start: dict, umask: int):
     for rel, e in start.items():
         if rel != '.':
             pid(rel)
+    linkmap = {}
+    for e in h['pre']:
+        if e['kind'] == 'link':
+            linkmap[e['path']] = EXT + '/' + e['dest']
+            pid(EXT + '/' + e['dest'])
     for c in children.values():
         pid(c)
     for rel in list(uni):
@@ -400,8 +437,8 @@ def model_line(h: dict, fresh: Fresh, start: dict, umask: int):
     owned = {e['path']: e.get('owned', True) for e in h['pre']}
     for rel in list(uni):
         e = start.get(rel)
-        if e is None:
-            continue
+        if e is None or e[0] == 'l':
+            continue            # a symbolic link is part of env.links, not an entry
         if e[0] == 'd':
             files.append('%d:0:%d:1:1' % (pid(rel), e[2]))
         else:
@@ -412,6 +449,7 @@ def model_line(h: dict, fresh: Fresh, start: dict, umask: int):
     rootw = bool(start['.'][2] & 0o200) if nonroot else True
     anc = ['%d=%s' % (pid(rel), '+'.join(str(pid(a)) for a in parents(rel))) for rel in list(uni) if parents(rel)]
     chl = ['%d=%d' % (pid(p), pid(c)) for p, c in children.items()]
+    lnk = ['%d=%d' % (pid(p), pid(d)) for p, d in linkmap.items()]
     keys = sorted({class_key(c) for c in h['classes']})
     evs = []
     for st in h['steps']:
@@ -430,7 +468,7 @@ def model_line(h: dict, fresh: Fresh, start: dict, umask: int):
             evs.append('C:%d:%d:%s/%s' % (st['crash']['idx'], j, '1' if junk else '-', cfg))
         else:
             evs.append('R/' + cfg)
-    line = ' '.join(['0' if nonroot else '1', str(umask), '1' if rootw else '0', ','.join(anc) or '-', ','.join(chl) or '-',
+    line = ' '.join(['0' if nonroot else '1', str(umask), '1' if rootw else '0', ','.join(anc) or '-', ','.join(chl) or '-', ','.join(lnk) or '-',
                      ','.join(files) or '-', ','.join(str(i + 1) for i in range(len(uni))) or '-'] + evs)
     return line, uni, foreign, keys
 
@@ -458,12 +496,17 @@ def same_entry(a, b) -> bool:
 
 def compare_model(h, fresh, impl, msteps, uni, foreign, keys) -> typing.Optional[dict]:
     cls_of_key = {class_key(c): c for c in h['classes']}
+    linkdest = {e['path']: EXT + '/' + e['dest'] for e in h['pre'] if e['kind'] == 'link'}
     for i, (mrc, mstate) in enumerate(msteps, 1):
         real = impl[i]
         if mrc != 'crash' and real['rc'] != mrc:
             return {'step': i, 'what': 'result', 'model': mrc, 'impl': real['rc'], 'detail': real['detail']}
         for rel in uni:
             m, e = mstate.get(rel), real['snap'].get(rel)
+            if e is not None and e[0] == 'l':
+                if m is not None or not same_entry(e, impl[0]['snap'].get(rel)):
+                    return {'step': i, 'what': 'symbolic link changed', 'path': rel, 'model': m, 'impl': e[:3]}
+                continue
             if m is None or e is None:
                 if not (m is None and e is None):
                     return {'step': i, 'what': 'presence', 'path': rel, 'model': m, 'impl': e and e[:3]}
@@ -479,7 +522,8 @@ def compare_model(h, fresh, impl, msteps, uni, foreign, keys) -> typing.Optional
                 cl = cls_of_key[keys[(cid - GEN_BASE) // 10000 - 1]]
                 src = uni[(cid - GEN_BASE) % 10000 - 1]
                 # shutil.copy into a directory: the text of target src is at src/<resource name>
-                okc = (src == rel or rel == src + '/' + EXTRA_NAME) and fresh.matches(cl, src, e)
+                # ... and open() through a symbolic link: the text of target src is at the link's destination
+                okc = (src == rel or rel == src + '/' + EXTRA_NAME or linkdest.get(src) == rel) and fresh.matches(cl, src, e)
             if not okc:
                 return {'step': i, 'what': 'content', 'path': rel, 'model': m, 'impl': e[:3]}
         extra = [rel for rel, e in real['snap'].items() if rel != '.' and rel not in uni]
@@ -495,7 +539,8 @@ def copy_dir_trigger(d: dict, prev: dict) -> typing.List[str]:
     return [p for p, k in d['support'] if not k and p in prev and prev[p][0] == 'd']
 
 
-def oracle(h: dict, fresh: Fresh, impl: typing.List[dict], kf_live: bool = False, kf_hits: typing.Optional[list] = None) -> typing.Optional[dict]:
+def oracle(h: dict, fresh: Fresh, impl: typing.List[dict], kf_live: bool = False, kf_hits: typing.Optional[list] = None,
+           kf_link_live: bool = False) -> typing.Optional[dict]:
     """the property itself, checked on the implementation's snapshots only (no model involved)"""
     start = dict(impl[0]['snap'])
     nonroot = h['mode'] == 'nonroot'
@@ -507,13 +552,15 @@ def oracle(h: dict, fresh: Fresh, impl: typing.List[dict], kf_live: bool = False
         prev, cur, rc = impl[i - 1]['snap'], impl[i]['snap'], impl[i]['rc']
         fm = (0o444 if st['file_mode'] is None else st['file_mode']) & 0o7777
         trig = copy_dir_trigger(d, prev) if kf_live else []
-        if trig and kf_hits is not None:
-            kf_hits.append((i, trig[0]))
+        ltrig = [t for t in tg if t in prev and prev[t][0] == 'l'] if kf_link_live else []   # F-SYMLINK-TARGET
+        ldest = {EXT + '/' + prev[t][1] for t in ltrig}
+        if (trig or ltrig) and kf_hits is not None:
+            kf_hits.append((i, (trig + ltrig)[0]))
         for rel in set(prev) | set(cur):
             if rel in tg or (cur.get(rel) or prev.get(rel))[0] == 'd':
                 continue
-            if any(rel == t + '/' + EXTRA_NAME for t in trig):
-                continue    # known finding: the copy landed inside the directory
+            if any(rel == t + '/' + EXTRA_NAME for t in trig) or rel in ldest:
+                continue    # known finding: the copy landed inside the directory / the write went through the link
             if not same_entry(prev.get(rel), cur.get(rel)):
                 return {'step': i, 'law': 'foreign_untouched', 'path': rel, 'before': prev.get(rel) and prev[rel][:3], 'after': cur.get(rel) and cur[rel][:3]}
         if st.get('crash'):
@@ -524,7 +571,7 @@ def oracle(h: dict, fresh: Fresh, impl: typing.List[dict], kf_live: bool = False
             continue
         if rc == 'ok':
             for rel in tg:
-                if rel in trig:
+                if rel in trig or rel in ltrig:
                     continue
                 e = cur.get(rel)
                 if e is None or e[0] != 'f' or not fresh.matches(cl, rel, e):
@@ -533,10 +580,10 @@ def oracle(h: dict, fresh: Fresh, impl: typing.List[dict], kf_live: bool = False
                     return {'step': i, 'law': 'regen_canonical(mode)', 'path': rel, 'requested': fm, 'after': e[2]}
         if st['no_overwrite']:
             for rel, e in prev.items():
-                if e[0] == 'f' and not same_entry(e, cur.get(rel)):
+                if e[0] == 'f' and rel not in ldest and not same_entry(e, cur.get(rel)):
                     return {'step': i, 'law': 'no_overwrite_safe', 'path': rel, 'before': e[:3], 'after': cur.get(rel) and cur[rel][:3]}
             existed = [t for t in tg if t in prev]
-            if existed and rc == 'ok':
+            if existed and rc == 'ok' and not all(t in ltrig for t in existed):
                 return {'step': i, 'law': 'no_overwrite_error_iff (conflict not reported)', 'path': existed[0]}
             if not existed and rc == 'exists' and len(set(tg)) == len(tg):
                 return {'step': i, 'law': 'no_overwrite_error_iff (error without conflict)'}
@@ -626,6 +673,22 @@ def main(chk: core.Check, replay: typing.Optional[str] = None) -> int:
         chk.report_known('F-COPY-INTO-DIR')
     kf_hits: typing.List[tuple] = []
 
+    # probe of F-SYMLINK-TARGET: a dangling symbolic link at a target under --no-overwrite
+    probe2 = os.path.join(base, 'probe2')
+    os.makedirs(os.path.join(probe2, 'out', 'ns'))
+    os.makedirs(os.path.join(probe2, 'ext'))
+    os.symlink(os.path.join('..', '..', 'ext', 'victim.h'), os.path.join(probe2, 'out', 'ns', 'A_1_0.h'))
+    prc, _ = run_nnvg(['--target-language', 'c', '--no-overwrite', '--generate-support', 'never', '--outdir', os.path.join(probe2, 'out'),
+                       os.path.join(nsdir, 'ns')])
+    symlink_followed = os.path.exists(os.path.join(probe2, 'ext', 'victim.h'))
+    shutil.rmtree(probe2, ignore_errors=True)
+    kf_link_live = False
+    if chk.is_known('F-SYMLINK-TARGET') and symlink_followed:
+        kf_link_live = True
+        chk.report_known('F-SYMLINK-TARGET')
+    # links at targets are generated when the gate refuses them, or while the finding is listed and reproduces
+    links_ok = (not symlink_followed) or kf_link_live
+
     # 2. histories
     fresh = Fresh(base, nsdir, extra)
     if replay:
@@ -649,7 +712,7 @@ def main(chk: core.Check, replay: typing.Optional[str] = None) -> int:
         for i in range(n_hist):
             mode = ['plain', 'plain', 'plain', 'shim', 'nonroot', 'nonroot'][i % 6]
             ml = max_len if (quick or i % 4 == 0) else 8
-            hs.append(gen_history(rng, mode, pool, fresh, ml, dir_at_copy_ok=True))
+            hs.append(gen_history(rng, mode, pool, fresh, ml, dir_at_copy_ok=True, links_ok=links_ok))
         if True:      # the corner of the former finding F-COPY-INTO-DIR (fixed by 7df01dd): must now be refused, always exercised
             for mode in ('shim', 'nonroot'):
                 hs.append({'mode': mode, 'classes': [pool[1]], 'rodirs': [],
@@ -670,7 +733,7 @@ def main(chk: core.Check, replay: typing.Optional[str] = None) -> int:
     stats = {'histories': len(hs), 'steps': 0, 'plain_nnvg_steps': 0, 'shim_root_steps': 0, 'nonroot_emulated_steps': 0,
              'no_overwrite_steps': 0, 'no_overwrite_conflicts': 0, 'dry_run_steps': 0, 'failed_runs_other': 0,
              'overwrites_of_readonly_files': 0, 'overwrites_of_existing_files': 0, 'copy_header_writes': 0,
-             'shutil_copy_writes': 0, 'interrupted_runs': 0, 'dir_at_target': 0, 'blocked_parent': 0, 'readonly_dirs': 0, 'not_owned_files': 0,
+             'shutil_copy_writes': 0, 'interrupted_runs': 0, 'links_at_targets': 0, 'dir_at_target': 0, 'blocked_parent': 0, 'readonly_dirs': 0, 'not_owned_files': 0,
              'langs': {}, 'max_history_len': 0, 'content_classes': len(fresh.by_key)}
     distinct = set()
     model_bad, oracle_bad = [], []
@@ -687,6 +750,7 @@ def main(chk: core.Check, replay: typing.Optional[str] = None) -> int:
     for k, (h, impl) in enumerate(zip(hs, impls)):
         stats['max_history_len'] = max(stats['max_history_len'], len(h['steps']))
         stats['dir_at_target'] += any(e['kind'] == 'dir' for e in h['pre'])
+        stats['links_at_targets'] += sum(1 for e in h['pre'] if e['kind'] == 'link')
         stats['blocked_parent'] += any(e.get('content') == 'in the way\n' for e in h['pre'])
         stats['readonly_dirs'] += bool(h.get('rodirs'))
         stats['not_owned_files'] += sum(1 for e in h['pre'] if not e.get('owned', True))
@@ -718,7 +782,7 @@ def main(chk: core.Check, replay: typing.Optional[str] = None) -> int:
             if (impl[i]['rc'] != 'ok' or any(t in prev for t in tg)) and not st['dry_run']:
                 distinct.add(json.dumps([class_key(cl), st['file_mode'], st['no_overwrite'], impl[i]['rc'],
                                          sorted((r, e[1], e[2]) for r, e in prev.items() if r in tg)], sort_keys=True))
-        ob = oracle(h, fresh, impl, kf_live, kf_hits)
+        ob = oracle(h, fresh, impl, kf_live, kf_hits, kf_link_live)
         if ob:
             oracle_bad.append((k, ob))
         if mouts and k < len(mouts) and not mouts[k].startswith('ERR'):
@@ -753,6 +817,8 @@ def main(chk: core.Check, replay: typing.Optional[str] = None) -> int:
         'superuser': is_root,
         'umask': umask,
         'copy_into_dir_reproduces': copy_into_dir_reproduces,
+        'symlink_at_target_followed': symlink_followed,
+        'links_generated': links_ok,
         'known_finding_instances': len(kf_hits),
     })
     chk.notes.append('effective uid %d: the correspondence of plain nnvg histories is checked with superuser=%s in the model; '
@@ -766,10 +832,10 @@ def main(chk: core.Check, replay: typing.Optional[str] = None) -> int:
 
         def failing(hh):
             im = run_history_impl(hh, os.path.join(base, 'shr-%d' % (time.time_ns() % 1000000)), nsdir, extra)
-            return oracle(hh, fresh, im, kf_live) is not None
+            return oracle(hh, fresh, im, kf_live, None, kf_link_live) is not None
         small = shrink_history(hs[k], failing)
         im = run_history_impl(small, os.path.join(base, 'shr-final'), nsdir, extra)
-        chk.violation({'history': slim(small), 'original_history': slim(hs[k]), 'violated': oracle(small, fresh, im, kf_live) or ob,
+        chk.violation({'history': slim(small), 'original_history': slim(hs[k]), 'violated': oracle(small, fresh, im, kf_live, None, kf_link_live) or ob,
                        'what': 'the real generator violates the property on this history', 'broken': broken,
                        'n_failing_histories': len(oracle_bad),
                        'steps_argv': [step_argv(s, small['classes'][s['cls']], '<dsdl>', '<out>') for s in small['steps']]}, found_input=True)
